@@ -13,6 +13,7 @@ type bodySpec struct {
 	CT      string `json:"ct"`
 	Body    string `json:"body"`
 	ReadErr int    `json:"read_err,omitempty"` // tag of the error Body.Read (or, with progSpec.Transformer, the body transformer) raises (0: none)
+	WriteErr int   `json:"write_err,omitempty"` // with progSpec.Save: tag the output writer returns when this body is written to it
 	UmErr   int    `json:"um_err,omitempty"`   // with progSpec.UmCustom: tag the client's custom unmarshal functions return for this body (0: they decode)
 }
 
@@ -31,7 +32,8 @@ type mwSpec struct {
 }
 
 type wrapSpec struct {
-	Kind    string `json:"kind"` // pass | short | post
+	Kind    string `json:"kind"` // pass | short | post | fab (makes a response up: Status) | twice (calls the inner round-tripper twice)
+	Status  int    `json:"status,omitempty"`
 	NilResp bool   `json:"nil_resp,omitempty"`
 	Set     int    `json:"set,omitempty"`
 	Ret     string `json:"ret,omitempty"` // short: "" (nil) | err ; post: keep | err | nil | drop | droperr
@@ -44,6 +46,7 @@ type attemptSpec struct {
 	Wraps   []wrapSpec `json:"wraps"`
 	GetBody int        `json:"getbody,omitempty"`
 	T       toutSpec   `json:"t"`
+	T2      toutSpec   `json:"t2"` // answer to any further transport call within the attempt (a wrapper calling twice)
 	Cli     []mwSpec   `json:"cli"`
 	Req     []mwSpec   `json:"req"`
 	Conds       []bool `json:"conds,omitempty"`        // verdict of each registered retry condition after this attempt
@@ -72,6 +75,7 @@ type progSpec struct {
 	Transformer  bool      `json:"transformer,omitempty"`  // a response body transformer is installed; ReadErr is raised by it
 	UmCustom     bool      `json:"um_custom,omitempty"`    // custom JSON/XML unmarshal functions (SetJsonUnmarshal/SetXmlUnmarshal)
 	Unreplayable bool      `json:"unreplayable,omitempty"` // SetBody(io.Reader)
+	Save         bool      `json:"save,omitempty"`         // SetOutput(writer): the body is downloaded
 	Attempts []attemptSpec `json:"attempts"`
 }
 
@@ -134,7 +138,7 @@ func (p *progSpec) coqBody(b bodySpec) string {
 	if p.Transformer {
 		rd, tf = "None", coqOptZ(b.ReadErr)
 	}
-	return fmt.Sprintf("(mkBody %s %s %s %s %s)", rd, tf, f(um[0]), f(um[1]), f(um[2]))
+	return fmt.Sprintf("(mkBody %s %s %s %s %s %s)", rd, tf, f(um[0]), f(um[1]), f(um[2]), coqOptZ(b.WriteErr))
 }
 
 func (p *progSpec) coqTout(t toutSpec) string {
@@ -165,6 +169,8 @@ func (p *progSpec) coqMw(m mwSpec, main toutSpec) string {
 
 func coqWrap(w wrapSpec) string {
 	switch w.Kind {
+	case "fab":
+		return "FAB" // replaced by coqWrapP (needs the program's checker)
 	case "short":
 		ret := "None"
 		if w.Ret == "err" {
@@ -187,6 +193,9 @@ func coqWrap(w wrapSpec) string {
 		}
 		return fmt.Sprintf("(WPost %s %s)", coqOptZ(w.Set), ret)
 	}
+	if w.Kind == "twice" {
+		return "WTwice"
+	}
 	return "WPass"
 }
 
@@ -198,6 +207,14 @@ func (p *progSpec) coq(ctxCutAt int) string {
 			ud = append(ud, coqOptZ(u))
 		}
 		for _, w := range a.Wraps {
+			if w.Kind == "fab" {
+				chk := "None"
+				if p.Checker != 0 {
+					chk = "(Some " + hk.CoqZ(int64(checkers[p.Checker](w.Status))) + ")"
+				}
+				ws = append(ws, fmt.Sprintf("(WFab %s %s)", hk.CoqZ(int64(w.Status)), chk))
+				continue
+			}
 			ws = append(ws, coqWrap(w))
 		}
 		for _, m := range a.Cli {
@@ -218,8 +235,8 @@ func (p *progSpec) coq(ctxCutAt int) string {
 		if a.Ctx == "transport" {
 			t = toutSpec{Fail: eCanceled}
 		}
-		as = append(as, fmt.Sprintf("(mkAttempt %s %s %s %s %s %s %s %s %s %s)", hk.CoqList(ud), bi, hk.CoqList(ws),
-			coqOptZ(a.GetBody), p.coqTout(t), hk.CoqList(cli), hk.CoqList(rq), hk.CoqList(conds), hk.CoqBool(ctxCutAt >= 0 && ai >= ctxCutAt), hk.CoqBool(a.SleepCancel)))
+		as = append(as, fmt.Sprintf("(mkAttempt %s %s %s %s %s %s %s %s %s %s %s)", hk.CoqList(ud), bi, hk.CoqList(ws),
+			coqOptZ(a.GetBody), p.coqTout(t), p.coqTout(a.T2), hk.CoqList(cli), hk.CoqList(rq), hk.CoqList(conds), hk.CoqBool(ctxCutAt >= 0 && ai >= ctxCutAt), hk.CoqBool(a.SleepCancel)))
 	}
 	entry := map[string]string{"do": "EDo", "send": "ESend", "get": "ESend", "post": "ESend", "mustget": "EMust", "mustpost": "EMust"}[p.Entry]
 	retry := "None"
@@ -239,8 +256,8 @@ func (p *progSpec) coq(ctxCutAt int) string {
 			hook = "(Some (mkHook None None))"
 		}
 	}
-	cfg := fmt.Sprintf("(mkCfg (mkTargets %s %s %s) %s %s %s %s %s)", hk.CoqBool(p.TResult), hk.CoqBool(p.TError), hk.CoqBool(p.TCommon),
-		hk.CoqBool(p.AutoRead == 0), hook, retry, coqOptZ(p.ReqErr), hk.CoqBool(p.Unreplayable))
+	cfg := fmt.Sprintf("(mkCfg (mkTargets %s %s %s) %s %s %s %s %s %s)", hk.CoqBool(p.TResult), hk.CoqBool(p.TError), hk.CoqBool(p.TCommon),
+		hk.CoqBool(p.AutoRead == 0 && !p.Save), hook, retry, coqOptZ(p.ReqErr), hk.CoqBool(p.Unreplayable), hk.CoqBool(p.Save))
 	return fmt.Sprintf("(mkProg %s %s %s)", entry, cfg, hk.CoqList(as))
 }
 
@@ -316,6 +333,7 @@ type obsT struct {
 	CtxCutAt int     `json:"ctx_cut_at"`          // attempt in which the stub cancelled the context (-1: it was never reached)
 	Iters    int     `json:"iterations"`      // iterations of do() that ran (final RetryAttempt + 1; 0: do() not entered)
 	TargetOK string  `json:"target_ok,omitempty"`
+	Output   string  `json:"output,omitempty"` // what the download target received
 }
 
 func (o *obsT) coq() string {
